@@ -232,7 +232,7 @@ def annotate(events, by_id):
             ev["kf_bsoct"] = any(p == src or p[:len(src) + 1] == src + (SL,) for p in cur["_bs"])
 
 
-def judge_all(ctx, traces, by_id, per_batch=12000):
+def judge_all(ctx, traces, by_id, per_batch=12000, module="ManifestTrace", cfg="Judge_C10.cfg", max_violations=25):
     """JUDGE with the tolerant trace spec (ManifestTrace prints every line the contract does not allow and goes on
     with the next execution), several TLC processes side by side.  vlib.Ctx.judge re-runs TLC once per rejected
     trace, which is quadratic when hundreds of executions hit a known finding.  Classification (known finding or
@@ -255,9 +255,9 @@ def judge_all(ctx, traces, by_id, per_batch=12000):
 
     def one(job):
         d, tp, b = job
-        cmd = ["java", "-XX:+UseParallelGC", "-Xmx6g", "-Xss64m", "-Dtlc2.tool.queue.IStateQueue=StateDeque",
+        cmd = ["java", "-XX:+UseParallelGC", "-XX:ParallelGCThreads=2", "-Xmx6g", "-Xss64m", "-Dtlc2.tool.queue.IStateQueue=StateDeque",
                "-cp", vlib.TLA_CP, "tlc2.TLC", "-workers", "1", "-metadir", os.path.join(d, "meta"),
-               "-config", "Judge_C10.cfg", "ManifestTrace"]
+               "-config", cfg, module]
         e = dict(os.environ)
         e["VERIF_TRACE"] = tp
         try:
@@ -273,7 +273,7 @@ def judge_all(ctx, traces, by_id, per_batch=12000):
     nrej = 0
     for (d, tp, b), (rc, out) in zip(jobs, results):
         if rc != 0 or "Model checking completed. No error has been found" not in out:
-            raise vlib.InfraError("judge ManifestTrace failed (rc=%s):\n%s" % (rc, "\n".join(str(out).splitlines()[-40:])))
+            raise vlib.InfraError("judge %s failed (rc=%s):\n%s" % (module, rc, "\n".join(str(out).splitlines()[-40:])))
         lines = sorted({int(x) for x in re.findall(r'"REJECTED_LINE", (\d+)', out)})
         starts, pos = [], 1
         for t in b:
@@ -285,7 +285,7 @@ def judge_all(ctx, traces, by_id, per_batch=12000):
             rejected.setdefault(i, ln - starts[i] + 1)
         for i, off in sorted(rejected.items()):
             nrej += 1
-            if nrej <= 5000:
+            if len(ctx.violations) < max_violations:      # (vlib.judge stops examining after 25 rejections, too)
                 ctx.classify({"trace": b[i], "offset": off, "why": "event not allowed by the contract"},
                              lambda head: strip(by_id.get(head.get("scn"))))
         ctx.traces_validated += len(b) - len(rejected)
@@ -313,7 +313,7 @@ class Bg:
 
 def tlc_bg(ctx, cfg, workers, timeout=1700):
     d = ctx._stage([SD])
-    cmd = ["java", "-XX:+UseParallelGC", "-Xmx8g", "-Xss64m", "-cp", vlib.TLA_CP, "tlc2.TLC", "-workers", str(workers),
+    cmd = ["java", "-XX:+UseParallelGC", "-XX:ParallelGCThreads=2", "-Xmx8g", "-Xss64m", "-cp", vlib.TLA_CP, "tlc2.TLC", "-workers", str(workers),
            "-metadir", os.path.join(d, "meta"), "-config", cfg, "ManifestCodecs"]
     return Bg(cmd, d, dict(os.environ), timeout)
 
@@ -367,17 +367,17 @@ def run(ctx):
     names, _ = ctx.gen(SD, "ManifestCodecs", "Gen_C10_names.cfg", timeout=900,
                        label="scenario emission: names x streams")
     ctx.extra["scenarios_emitted"] = len(align) + len(names)
+    # every one-token manifest, a seeded sample of the two-token ones (all of them are covered at model level by MC);
+    # quick tier: every one-stream name manifest and a seeded sample of the two-stream ones
+    one = [s for s in align if len(s["streams"][0]["toks"]) == 1]
+    two = [s for s in align if len(s["streams"][0]["toks"]) > 1]
+    rnd.shuffle(two)
+    align = one + two[:12000 if big else 1200]
     if not big:
-        # quick tier: every one-token manifest, a seeded sample of the two-token ones; every one-stream name
-        # manifest, a seeded sample of the two-stream ones
-        one = [s for s in align if len(s["streams"][0]["toks"]) == 1]
-        two = [s for s in align if len(s["streams"][0]["toks"]) > 1]
-        rnd.shuffle(two)
-        align = one + two[:1500]
         n1 = [s for s in names if len(s["streams"]) == 1]
         n2 = [s for s in names if len(s["streams"]) > 1]
         rnd.shuffle(n2)
-        names = n1 + n2[:600]
+        names = n1 + n2[:500]
     scns = []
     for s in align:
         s["kind"] = "align"
@@ -385,7 +385,7 @@ def run(ctx):
     for s in names:
         s["kind"] = "names"
         scns.append(s)
-    nrand = 6000 if big else 500
+    nrand = 5000 if big else 500
     for i in range(nrand):
         scns.append({"kind": "random", "streams": rand_manifest(rnd)})
     for i, s in enumerate(scns):
@@ -425,7 +425,7 @@ def run(ctx):
     ctx.evaluations = len(traces)
     ctx.log("recorded %d executions, %d events" % (len(traces), len(events)))
     # ---- JUDGE
-    nrej = judge_all(ctx, traces, by_id)
+    nrej = judge_all(ctx, traces, by_id, per_batch=40000 if big else 12000)
     ctx.log("judge: %d executions rejected" % nrej)
     for bg, cfg, label in mcs:
         tlc_bg_result(ctx, bg, cfg, label)
